@@ -241,7 +241,7 @@ def check_rendering(ctx, case, res, kind, observed):
         COUNT_STEPS.append((case, f'({cn(len(enum_names))}, {cn(enum_names.index(ok_enum.name))}, {cls}, '
                                   + clist([f'({cn(enum_names.index(st))}, {cn(n)})' for st, n in got]) + ')'))
     # the table: rows (status, count/total (percent)) located by content, and the listed names per status
-    for verb in ('DEFAULT', 'FULL_DETAILS'):
+    for verb in ('DEFAULT',):
         try:
             templates = rp.Representation(rp.TableRepresenter(), Verbosity[verb])(res)
         except Exception as exc:  # noqa
@@ -738,7 +738,7 @@ def run(ctx):
                 'non-trivial = some summary has at least two classes / rows; distinct by case content')
     rng = ctx.rng
     cases = [json.loads(json.dumps(c)) for c in CORPUS]
-    nrand = 550 if ctx.tier == "quick" else 8000
+    nrand = 400 if ctx.tier == "quick" else 8000
     cases += [gen_case(rng) for _ in range(nrand)]
     steps = []
     for case in cases:
@@ -753,7 +753,7 @@ def run(ctx):
                        + '.\nEval vm_compute in bad_indices (map check_case cases).'))
     evaluations = ctx.evaluations
     hsteps = []
-    for _ in range(200 if ctx.tier == 'quick' else 4000):
+    for _ in range(120 if ctx.tier == 'quick' else 4000):
         run_history(ctx, gen_history(rng), hsteps)
     for k in range(0, len(hsteps), shard_size):
         chunk = hsteps[k:k + shard_size]
